@@ -92,7 +92,7 @@ m = {
  }],
  "checks": [],
  "not_applicable": [],
- "notes": "Technique family: deterministic simulation with fault injection. Fixes to /repo are separate 'fix:' commits listed in /verif/known_findings.txt. See DESIGN.md.",
+ "notes": "Technique family: deterministic simulation with fault injection. Fixes to /repo are separate 'fix:' commits listed in /verif/known_findings.txt. setup_cmd builds the simulator twice from /repo's working tree (optimised, and unoptimised for a 1-in-25 slice of every check's runs with a 2 MiB stack). Independent property-breaking changes and behaviour-preserving variants with what the checks say about them: /verif/seeded, /verif/variants. See DESIGN.md and README.md.",
 }
 for pid in sorted(CHECKS):
     level, tech, text, note, ref = CHECKS[pid]
